@@ -550,9 +550,17 @@ func bucket(n int) int {
 // the symbol table (just past the table, 2^32, 2^63-1, 2^63, 2^63+1024, 2^64-1), alone, against
 // a proper string, inside a set, and printed.
 func danglingOperands(c *Ctx) {
+	danglingOperandsOver(c, false)
+	danglingOperandsOver(c, true) // a table that holds nothing of its own
+}
+
+func danglingOperandsOver(c *Ctx, emptyTable bool) {
 	syms := &datalog.SymbolTable{}
-	proper := syms.Insert("proper")
-	idx := []uint64{uint64(datalog.OFFSET) + 1, 1 << 32, 1<<63 - 1, 1 << 63, 1<<63 + 1024, 1<<64 - 1, 29}
+	proper := datalog.Term(datalog.String(0)) // a default symbol
+	if !emptyTable {
+		proper = syms.Insert("proper")
+	}
+	idx := []uint64{uint64(datalog.OFFSET), uint64(datalog.OFFSET) + 1, 1 << 32, 1<<63 - 1, 1 << 63, 1<<63 + 1024, 1<<64 - 1, 29}
 	bins := []datalog.BinaryOpFunc{datalog.Equal{}, datalog.Contains{}, datalog.Prefix{}, datalog.Suffix{}, datalog.Regex{}, datalog.Add{}, datalog.LessThan{}, datalog.Intersection{}, datalog.Union{}}
 	uns := []datalog.UnaryOpFunc{datalog.Length{}, datalog.Negate{}, datalog.Parens{}}
 	try := func(what string, f func()) {
